@@ -20,7 +20,7 @@ RULE = ("(shorthand key of the live table, root) for roots = letter + accidental
 def shards(tier, seed):
     out = []
     for L in T.LETTERS:
-        out.append({"name": "formula-" + L, "kind": "formula", "letter": L, "weight": 5,
+        out.append({"name": "formula-" + L, "kind": "formula", "letter": L, "weight": 5, "after_history": L in "CB",
                     "roots": "pure3" if tier == "quick" else "all3+pure6"})
     out.append({"name": "tables", "kind": "tables", "weight": 1})
     out.append({"name": "aliases", "kind": "aliases", "weight": 4,
